@@ -80,7 +80,7 @@ let dump (st : state) : string =
       (String.concat "," (List.map (fun (k, v) -> s_key k ^ ":" ^ s_value v) fl)) in
   "R[" ^ r ^ "]" ^ String.concat "" (List.map (fun x -> " " ^ s_inst x) store)
 
-let s_out = function OK -> "K" | ERR -> "E" | PANIC -> "P"
+let s_out = function OK -> "K" | ERR -> "E"
 let s_reason = function
   | RsNoVar -> "novar" | RsNoKey -> "nokey" | RsUndeclared -> "undeclared" | RsType -> "type" | RsStale -> "stale"
   | RsUntyped -> "untyped" | RsNotRecord -> "notrecord" | RsDefn -> "defn"
